@@ -271,7 +271,17 @@ class Table:
                 block(list(s.body) + list(s.orelse) + list(s.finalbody) + rest, env, conds, cont)
                 return
             if isinstance(s, (ast.For, ast.While, ast.AsyncFor)):
-                raise AnalysisError("decision table of %s: loop at line %d not understood" % (fi.qname, s.lineno))
+                # a loop that cannot leave the function and only stores into containers / fields has no part in the decision;
+                # the plain names it binds are unknown afterwards
+                leaves = [n for n in ast.walk(s) if isinstance(n, (ast.Return, ast.Raise, ast.Yield, ast.YieldFrom))]
+                if leaves:
+                    raise AnalysisError("decision table of %s: loop at line %d not understood" % (fi.qname, s.lineno))
+                env = dict(env)
+                for n in ast.walk(s):
+                    if isinstance(n, ast.Name) and isinstance(n.ctx, ast.Store):
+                        env[n.id] = ast.Name(id="<loop:%s>" % n.id, ctx=ast.Load())
+                block(rest, env, conds, cont)
+                return
             # Expr, Pass, Import, Delete, nested defs, ... : no influence on the decision
             block(rest, env, conds, cont)
 
